@@ -1,6 +1,7 @@
 import G3D.Proofs.Move
 import G3D.Proofs.Move2
 import G3D.Proofs.MoveReturned
+import G3D.Proofs.MovePolyhedron
 /-! # C07 — `move` translates the object in place and keeps it self-consistent
     `x.move v` is modelled as a function returning (receiver after the call, returned object), WITH the cached
     derived fields of the code (carrier line of Segment / HalfLine, plane and centre of ConvexPolygon, vertex / edge /
@@ -75,5 +76,18 @@ theorem pinned_segment_move_was_wrong : ∃ s : Seg, s.WF ∧ ∃ v, ¬ (s.moveP
 /-- ConvexPolygon: the returned polygon IS the receiver after the move (field by field) -/
 theorem polygon_returned_eq_receiver (P : Polygon) (hv : P.Valid) (v : V3) : (P.move v).2 = .ok (P.move v).1 :=
   Polygon.move_returned_eq_receiver P hv v
+
+
+/-! ### ConvexPolyhedron -/
+/-- a successful move of a Valid polyhedron: returned = receiver, which is Valid again and whose membership test is the
+    translated one -/
+theorem polyhedron_move (B : Polyhedron) (hV : B.Valid) (v : V3) (B' R : Polyhedron) (h : B.move v = .ok (B', R)) :
+    R = B' ∧ B'.Valid ∧ (∀ x, B'.contains (add x v) = B.contains x) := by
+  obtain ⟨h1, _, h3, h4⟩ := Polyhedron.move_ok_valid B hV v B' R h
+  exact ⟨h1, h3, h4⟩
+/-- … and the move does succeed (given Euler's formula for the body, which the constructor had checked) -/
+theorem polyhedron_move_succeeds (B : Polyhedron) (hV : B.Valid)
+    (hEuler : ((collectVerts B.faces).length : Int) - (edgesOf B.faces []).length + B.faces.length = 2) (v : V3) :
+    B.move v = .ok (B.moved v, B.moved v) := Polyhedron.move_valid_ok B hV hEuler v
 
 end G3D.Props.C07
